@@ -31,11 +31,16 @@ class StubChannel:
         return self.closed
 
 
+RTYPES: list = []
+
+
 def do_ops(f, ops):
     res, exc = [], ""
+    del RTYPES[:]
     try:
         for op in ops:
             r = f.read(op[1]) if op[0] == "read" else f.readline()
+            RTYPES.append(type(r).__name__)
             res.append(list(r.encode("utf-32-le")[i] for i in range(0, 0)) if False else ([ord(ch) for ch in r] if isinstance(r, str) else list(r)))
     except Exception as e:  # noqa: BLE001
         exc = type(e).__name__
@@ -116,6 +121,32 @@ def run(ctx):
             cases.append({"k": "read", "items": [[ord(c) for c in it] if isinstance(it, str) else list(it) for it in items],
                           "ops": [list(o) for o in ops], "results": res, "exc": exc})
             metas.append({"binary": binary, "real_channel": True})
+        # other transports and settings under the file: a socket gateway with items that arrive in several pieces and are pipelined, and a
+        # gateway that was reconfigured to the documented default coercion (text items must still come out as text)
+        from real import matrix as _matrix
+
+        g_sock = _matrix.make_gateway(execnet.default_group, "socket", "thread", tag="c19s")
+        g_reconf = execnet.makegateway("popen")
+        g_reconf.reconfigure(py2str_as_py3str=True, py3str_as_py2str=False)
+        for gx, big in ((g_sock, True), (g_sock, False), (g_reconf, False), (g_reconf, False)):
+            for _ in range(2 if ctx.quick else 10):
+                if big:
+                    items = ["a" * 70000 + "\n", "b" * 40000, "\n", "c" * 66000 + "\nd"]
+                    ops = [("read", 50000), ("readline",), ("read", 30000), ("readline",), ("readline",), ("read", 70000), ("read", 3)]
+                else:
+                    items = ["".join(rng.choice("ab\n") for _ in range(rng.randint(0, 4))) for _ in range(rng.randint(1, 4))]
+                    ops = [rng.choice(OPS) for _ in range(rng.randint(1, 6))] + [("readline",), ("read", 3)]
+                ch = gx.remote_exec("for x in channel.receive(): channel.send(x)")
+                ch.send(items)
+                f = ch.makefile("r")
+                box = {}
+                th = threading.Thread(target=lambda: box.update(r=do_ops(f, ops)), daemon=True)
+                th.start()
+                th.join(30)
+                res, exc = box.get("r", ([], "Hang"))
+                cases.append({"k": "read", "items": [[ord(c) for c in it] for it in items], "ops": [list(o) for o in ops], "results": res, "exc": exc,
+                              "rtypes": list(RTYPES), "want_type": "str"})
+                metas.append({"binary": False, "real_channel": True, "gateway": "socket" if gx is g_sock else "popen, reconfigured to the default coercion"})
         # the other ways a channel can end under a reading file: our own close with items still unread (they stay readable, then EOF),
         # the peer dropping its end while it keeps a callback ("sendonly" here), the whole gateway going away; reads are repeated at EOF.
         # A read that blocks is reported as exception "Hang".
